@@ -434,8 +434,9 @@ def parseSignedNat (s : Bytes) : Option Int :=
   | 45 :: ds => (parseNat ds).map (fun n => -(n : Int))
   | ds => (parseNat ds).map (fun n => (n : Int))
 
-/-- `[blanks][sign]digits.digitsE[sign]digits[blanks]` ↦ (negative, all mantissa digits as one number, decimal
-exponent of the last mantissa digit); `none` for any other text (the writer produces no other) -/
+/-- `[blanks][sign]digits[.digits][E[sign]digits][blanks]` (at least one mantissa digit) ↦ (negative, all mantissa
+digits as one number, decimal exponent of the last mantissa digit); `none` for any other text (inf/nan/underscores:
+the writer produces none of them) -/
 def parseEText (s : Bytes) : Option (Bool × Nat × Int) :=
   let t := (rstrip s).dropWhile isWs
   let st : Bool × Bytes := match t with
@@ -443,16 +444,18 @@ def parseEText (s : Bytes) : Option (Bool × Nat × Int) :=
     | 43 :: r => (false, r)
     | r => (false, r)
   let ip := st.2.takeWhile isDigit
-  match st.2.dropWhile isDigit with
-  | 46 :: t2 =>
-    let fp := t2.takeWhile isDigit
-    match t2.dropWhile isDigit with
-    | 69 :: t4 =>
-      match parseSignedNat t4, parseNat (ip ++ fp) with
-      | some e, some m => if ip.isEmpty then none else some (st.1, m, e - (fp.length : Int))
-      | _, _ => none
+  let t1 := st.2.dropWhile isDigit
+  let fr : Bytes × Bytes := match t1 with
+    | 46 :: t2 => (t2.takeWhile isDigit, t2.dropWhile isDigit)
+    | _ => ([], t1)
+  let ex : Option Int := match fr.2 with
+    | [] => some 0
+    | 69 :: t4 => parseSignedNat t4
+    | 101 :: t4 => parseSignedNat t4
     | _ => none
-  | _ => none
+  match ex, parseNat (ip ++ fr.1) with
+  | some e, some m => some (st.1, m, e - (fr.1.length : Int))
+  | _, _ => none
 
 /-- the double nearest to ±m·10^e10 (round half to even), as a 64-bit pattern; `none` when it overflows (Python
 returns inf, which no finite double's text denotes) -/
